@@ -421,6 +421,12 @@ func TestC14(t *testing.T) {
 	st := NewStats("C14", "regex", "regex ASTs of the stated subset (literals, ., bracket classes with ranges and negation, \\d \\D \\s \\S, plain / non-capturing / named groups, * + ? {m} {m,} {m,n} and lazy forms on non-nullable bodies, alternation of single atoms or groups as the whole content of a group or of the regex, ^ $, numbered and named back-references to closed groups) x ASCII texts over {a b c 0 1 - space tab newline}, half of them sampled from the regex; oracles: the reference matcher on the conventional translation (spans and group bindings) and, for back-reference-free regexes, Go regexp position by position; non-trivial = the regex has a quantifier or alternation and the text has >= 1 match; distinct by (regex,text)")
 	defer st.Write()
 	rapid.Check(t, func(t *rapid.T) {
+		if rapid.IntRange(0, 3).Draw(t, "afterrejected") == 0 {
+			// a compile that is rejected after the regex parser has opened groups must
+			// leave nothing behind for the next one
+			CompileSafe(rapid.SampledFrom([]string{"find all @/(a)(b)(?=c)/", "find all @/(a)((b)/", "find all @/(?<n>a)(b/ 'x'", "find all @/(a)(b)/ ("}).Draw(t, "rejected"))
+			st.Count("after_a_rejected_compile")
+		}
 		g := &rgen{t: t, excluded: map[string]int{}}
 		mode := rapid.IntRange(0, 2).Draw(t, "mode")
 		g.refs = mode != 0
@@ -597,4 +603,43 @@ func modelFindAllTracked(body []*Node, text string, budget int, tr *refTracker) 
 	trackUnbound = tr
 	defer func() { trackUnbound = nil }()
 	return ModelFindAll(nil, body, text, budget)
+}
+
+// TestC14ManyGroups: regexes with 10..20 capturing groups and a back-reference to
+// each of them in turn (two-digit references).
+func TestC14ManyGroups(t *testing.T) {
+	seedNote(t)
+	StartWatchdog("C14", 60*time.Second)
+	st := NewStats("C14", "manygroups", "exhaustive over (n, k): n in {9, 10, 11, 12, 20} single-letter capturing groups followed by `-` and a back-reference to group k, 1 <= k <= n, on a text holding the letters, `-` and each letter in turn; oracle: the reference matcher on the conventional translation (spans and all n group bindings); every case non-trivial; distinct by (n, k)")
+	st.Exhaustive = true
+	defer st.Write()
+	for _, n := range []int{9, 10, 11, 12, 20} {
+		letters := "abcdefghijklmnopqrst"[:n]
+		var text strings.Builder
+		for i := 0; i < n; i++ {
+			text.WriteString(letters + "-" + letters[i:i+1] + "0 ")
+		}
+		for k := 1; k <= n; k++ {
+			re := &RE{K: "seq"}
+			for i := 0; i < n; i++ {
+				re.Kids = append(re.Kids, &RE{K: "group", No: i + 1, Kids: []*RE{{K: "lit", S: letters[i : i+1]}}})
+			}
+			re.Kids = append(re.Kids, &RE{K: "lit", S: "-"}, &RE{K: "ref", No: k})
+			res := re.String()
+			mr := ModelFindAll(nil, []*Node{re.ToIR()}, text.String(), modelBudget)
+			if mr.OverBudget || len(mr.Spans) != 1 {
+				t.Fatalf("HARNESS: reference matcher on /%s/: over budget %v, %d spans", res, mr.OverBudget, len(mr.Spans))
+			}
+			c := RegexCase{Regex: res, Text: text.String(), Want: mr.Spans}
+			st.Eval()
+			sig, what, discard := checkRegexCase(c)
+			if discard {
+				t.Fatalf("HARNESS: VM budget on /%s/", res)
+			}
+			if sig != "" {
+				Fail(t, Failure{Property: "C14", Kind: "regex", What: fmt.Sprintf("@/%s/ : %s", res, clipMsg(what, 500)), Case: c, Sig: sig})
+			}
+			st.NonTrivial(fmt.Sprint(n, k), func() any { return map[string]any{"regex": res, "groups": n, "reference": k} })
+		}
+	}
 }
